@@ -54,7 +54,8 @@ type Assign struct {
 }
 
 type Case struct {
-	Imports bool     `json:"imports"` // decorate with the goast resolver and restore with import management: qualified identifiers become path-carrying identifiers with the points Start, X, End
+	Reuse   bool     `json:"reuse,omitempty"` // print through a FileRestorer that restores another file before the result is printed
+	Imports bool     `json:"imports"`         // decorate with the goast resolver and restore with import management: qualified identifiers become path-carrying identifiers with the points Start, X, End
 	Src     string   `json:"src"`
 	From    string   `json:"from,omitempty"`
 	Assigns []Assign `json:"assigns"`
@@ -99,6 +100,9 @@ func check(sub string) func(t h.TB, c Case) {
 		var base []byte
 		print := func(f *dst.File) ([]byte, error) {
 			if !c.Imports {
+				if c.Reuse {
+					return dsth.PrintThenReuse(decorator.NewRestorer(), f)
+				}
 				return dsth.Print(f)
 			}
 			var buf bytes.Buffer
@@ -418,6 +422,7 @@ func genCase(sub string) func(t *rapid.T) (Case, bool) {
 			return Case{}, false
 		}
 		c := Case{Src: string(cs), From: from, Imports: rapid.IntRange(0, 3).Draw(t, "imports") == 0}
+		c.Reuse = !c.Imports && rapid.IntRange(0, 3).Draw(t, "reuse") == 0
 		if c.Imports {
 			h.Label("with-import-management")
 		}
